@@ -275,3 +275,38 @@ Proof.
   destruct (Z.eqb_spec a 0), (Z.eqb_spec a 1), (Z.eqb_spec a 2), (Z.eqb_spec a 3),
            (Z.eqb_spec b 0), (Z.eqb_spec b 1), (Z.eqb_spec b 2), (Z.eqb_spec b 3); try reflexivity; lia.
 Qed.
+
+(* ------------------------------------------------------------ D1 end to end on the models *)
+(* the abstract relation instantiated with MemoryAccessSet.conflicts (model/RangeSet.v): operations
+   carry access sets that satisfy the class invariant; then no kernel operation and DMA operation
+   that are unfinished together have a byte written by one and read or written by the other *)
+From VV Require Import model.RangeSet proofs.RangeSetProofs.
+
+Section WaitsBytes.
+  Variable op : Type.
+  Variable is_dma : op -> bool.
+  Variable acc : op -> maset.                     (* memory_accesses[op] *)
+  Variable max_dma : Z.
+  Variable max_kern : Z.
+  Hypothesis acc_wf : forall o, ma_wf (acc o).
+
+  Definition acc_conflict (a b : op) : bool :=
+    match ma_conflicts (acc a) (acc b) with Some true => true | _ => false end.
+
+  Lemma acc_conflict_sym a b : acc_conflict a b = acc_conflict b a.
+  Proof. unfold acc_conflict. now rewrite (ma_conflicts_sym_lemma _ _ (acc_wf a) (acc_wf b)). Qed.
+
+  Theorem waits_separate_bytes_lemma ops :
+    forall h rest,
+      qsteps op is_dma max_dma max_kern
+             (q_init, emit op is_dma acc_conflict max_dma max_kern w_init ops) (h, rest) ->
+      forall k d, In k (q_kern h) -> In d (q_dma h) -> ~ byte_conflict (acc k) (acc d).
+  Proof.
+    intros h rest Hsteps k d Hk Hd Hbc.
+    pose proof (waits_separate_lemma op is_dma acc_conflict max_dma max_kern acc_conflict_sym ops h rest Hsteps k d Hk Hd) as Hc.
+    unfold acc_conflict in Hc.
+    destruct (ma_conflicts_decides _ _ (acc_wf k) (acc_wf d)) as [[E _]|[E N]].
+    - rewrite E in Hc. discriminate.
+    - contradiction.
+  Qed.
+End WaitsBytes.
